@@ -424,6 +424,137 @@ class Body:
         return None
 
 
+def cond_edges(b, atom_call=None, atom_place=None, want=True):
+    """Edges whose traversal implies that an *atomic condition* has the value `want`, looking through boolean temporaries:
+    `let c = a && b; if c { .. }` lowers to a bool local with several definitions (a constant false on the short-circuit path, the value
+    of `b` otherwise) that is switched on later; taking the true edge of that switch implies both `a` and `b`.
+    atom_call(t) -> bool selects call terminators whose bool result is the condition; atom_place(origin) -> bool selects bool places
+    (fields) read as the condition. Returns a list of (block, successor) edges."""
+    atoms = set()                   # locals holding the atomic condition's value
+    for bi, t in b.calls():
+        if atom_call is not None and t.get("dst") and not t["dst"]["p"] and b.local_ty(t["dst"]["l"]) == "bool" and atom_call(t):
+            atoms.add(t["dst"]["l"])
+    if atom_place is not None:
+        for blk in b.blocks:
+            for st in blk["st"]:
+                if st["rv"]["k"] == "Use" and not st["d"]["p"] and b.local_ty(st["d"]["l"]) == "bool":
+                    pl = st["rv"]["o"][0].get("c") or st["rv"]["o"][0].get("m")
+                    if pl is not None and pl["p"] and atom_place(b.origin(pl["l"], tuple(pl["p"]))):
+                        atoms.add(st["d"]["l"])
+
+    def edge_for(sb, sw, truth):
+        zero = [tb for v, tb in sw["targets"] if v == "0"]
+        if truth:
+            return [(sb, sw["otherwise"])]
+        return [(sb, zero[0])] if zero else []
+
+    E = []
+
+    def switch_value_source(sw):
+        """(local, negated) the switch tests, following Use / Not chains; or ('place', origin, negated)"""
+        pl = sw["op"].get("c") or sw["op"].get("m")
+        neg = False
+        depth = 0
+        while pl is not None and depth < 12:
+            depth += 1
+            if pl["p"]:
+                return ("place", b.origin(pl["l"], tuple(pl["p"])), neg)
+            l = pl["l"]
+            if l in atoms:
+                return ("local", l, neg)
+            d = b.single_def(l)
+            if d is None or d[1] == "t":
+                return ("local", l, neg)
+            rv = d[2]["rv"]
+            if rv["k"] == "Un" and rv["op"] == "Not":
+                neg = not neg
+                pl = rv["o"][0].get("c") or rv["o"][0].get("m")
+                continue
+            if rv["k"] == "Use":
+                nxt = rv["o"][0].get("c") or rv["o"][0].get("m")
+                if nxt is None:
+                    return ("local", l, neg)
+                if nxt["p"]:
+                    return ("place", b.origin(nxt["l"], tuple(nxt["p"])), neg)
+                pl = nxt
+                continue
+            return ("local", l, neg)
+        return None
+
+    # direct tests of an atom
+    for sb, sw in b.switches():
+        if sw.get("ty") != "bool":
+            continue
+        v = switch_value_source(sw)
+        if v is None:
+            continue
+        if v[0] == "local" and v[1] in atoms:
+            E += edge_for(sb, sw, want != v[2])
+        elif v[0] == "place" and atom_place is not None and atom_place(v[1]):
+            E += edge_for(sb, sw, want != v[2])
+    if not want:
+        return E            # implication through temporaries is only computed for the true polarity
+    # bool temporaries whose truth implies the atom
+    memo = {}
+
+    def implies(l, depth=0):
+        if l in atoms:
+            return True
+        if l in memo:
+            return memo[l]
+        memo[l] = False
+        if depth > 8 or b.local_ty(l) != "bool" or 1 <= l <= b.argc:
+            return False
+        defs = b.defs().get(l, [])
+        if not defs:
+            return False
+        ok = True
+        for (db, si, rec) in defs:
+            if si == "t":
+                ok = ok and bool(E) and b.edges_dominate(E, db)
+                continue
+            if rec["d"]["p"]:
+                ok = False
+                continue
+            rv = rec["rv"]
+            if rv["k"] == "Use":
+                o = rv["o"][0]
+                k = o.get("k")
+                if k is not None:
+                    if k.get("v") == "0":
+                        continue                    # this definition never makes it true
+                    ok = ok and bool(E) and b.edges_dominate(E, db)
+                    continue
+                pl = o.get("c") or o.get("m")
+                if pl is not None and not pl["p"] and implies(pl["l"], depth + 1):
+                    continue
+                if pl is not None and pl["p"] and atom_place is not None and atom_place(b.origin(pl["l"], tuple(pl["p"]))):
+                    continue
+                ok = ok and bool(E) and b.edges_dominate(E, db)
+                continue
+            ok = ok and bool(E) and b.edges_dominate(E, db)
+        memo[l] = ok
+        return ok
+
+    changed = True
+    rounds = 0
+    while changed and rounds < 6:
+        changed = False
+        rounds += 1
+        memo.clear()
+        for sb, sw in b.switches():
+            if sw.get("ty") != "bool":
+                continue
+            v = switch_value_source(sw)
+            if v is None or v[0] != "local" or v[2]:
+                continue
+            e = edge_for(sb, sw, True)
+            if e and e[0] not in E and implies(v[1]):
+                E += e
+                changed = True
+    return E
+
+
 def inlined_calls(f, b):
     """calls of a function body together with the calls made by the closures it hands to other calls (iterator adaptors such as
     for_each / map / all): yields (site, t, owner, adaptor) where `site` is the block of the parent body at which the call happens
